@@ -183,7 +183,7 @@ def name_grammar(W):
     g = [
         ("plain", "a.txt"), ("plain-sub", "d/b.md"), ("plain-deep", "deep/x/y/z.csv"), ("plain-space", "a b.txt"),
         ("unicode", "\u00fcn\u00ef\u4e2d.txt"), ("unicode-rlo", "x\u202etxt.md"), ("unicode-fullwidth", "\uff0e\uff0e/\uff46.txt"),
-        ("abs-canary", can), ("abs-double-slash", "/" + can), ("abs-etc", "/etc/hostname.txt"),
+        ("abs-canary", can), ("abs-double-slash", "/" + can), ("abs-canary-md", os.path.join(W, "canary", "secret.md")),   # (never name a real host location: a broken tree would write there)
         ("dotdot-canary", "../../canary/secret.txt"), ("dotdot-write", "../evil.txt"), ("dotdot-mid", "a/../../evil.txt"),
         ("dotdot-inside", "a/../b.txt"), ("dot", "./c.txt"), ("dot-mid", "a/./d.txt"),
         ("dotdot-long", "../" * 12 + can.lstrip("/")), ("dotdot-trail", "sub/../../canary/secret.txt"),
@@ -274,7 +274,8 @@ def build_archive(kind, members, rng, layout=None, zip_method=None):
                     t.addfile(ti, io.BytesIO(m["data"]))
         return b.getvalue()
     # 7z
-    files = [{"name": m["name"], "data": m.get("data") if not m.get("lie") else None, "attr": m.get("attr")} for m in members]
+    files = [{"name": m["name"], "data": m.get("data") if not m.get("lie") else None, "attr": m.get("attr"),
+              "empty_file": bool(m.get("emptyfile"))} for m in members]
     lie = [i for i, m in enumerate(members) if m.get("lie")]
     return write_7z(files, layout=layout or rng.choice(["solid", "per-file"]), lie_stream=lie)
 
@@ -285,15 +286,31 @@ HISTORIES = [["exhaust"], ["next", "close"], ["next", "next", "drop"], ["close"]
              ["next", "throw_exc", "drop"], ["exhaust", "next", "close"]]
 
 
+N_WORKERS = 8
+
+
 def make_cases(ctx, W):
     rng = ctx.rng
-    grammar = name_grammar(W)
+    # every worker process has its own canary directory (a case must be judged by what IT did to the host):
+    # names are written against a placeholder root and bound to the worker that will run the case
+    PH = "/@@C09WORKER@@"
+    grammar = name_grammar(PH)
     cases, meta = [], {}
     cid = [0]
 
     def add(kind, members, actions, limits=None, count=False, label="", layout=None, zip_method=None, recipe=None):
         cid[0] += 1
         i = cid[0]
+        Wk = os.path.join(W, f"w{len(cases) % N_WORKERS}")       # run_cases hands cases[k::N_WORKERS] to worker k
+        bound = []
+        for mm in members:
+            mm = dict(mm)
+            mm["name"] = (mm["name"].replace("../" + PH.lstrip("/"), "../" + Wk.lstrip("/")).replace(PH, Wk)
+                          .replace(PH.lstrip("/"), Wk.lstrip("/")))
+            if mm.get("link"):
+                mm["link"] = mm["link"].replace(PH, Wk)
+            bound.append(mm)
+        members = bound
         if layout is None:
             layout = rng.choice(["solid", "solid", "per-file"]) if kind == "7z" else None
         try:
@@ -333,6 +350,17 @@ def make_cases(ctx, W):
         add("7z", [member("plain", "ok.txt", 0), member(cls + "-nostream", name, 1, lie=True)], ["exhaust"],
             label=cls + "-nostream")
         add("7z", [member(cls + "-nostream", name, 0, lie=True)], ["exhaust"], label=cls + "-nostream-alone")
+    # 1b. the same names on entries that carry NO data: directory entries in every container, and 7z entries flagged
+    #     EmptyStream+EmptyFile (zero-byte files as 7-Zip stores them) — with and without a real stream beside them
+    for cls, name in grammar:
+        add("7z", [member("plain", "ok.txt", 0), member(cls + "-emptyfile", name, 1, data=None, emptyfile=True)],
+            ["exhaust"], label=cls + "-emptyfile")
+        add("7z", [member(cls + "-emptyfile", name, 0, data=None, emptyfile=True)], ["exhaust"], label=cls + "-emptyfile-alone")
+        add("7z", [member("plain", "ok.txt", 0), member(cls + "-direntry", name, 1, data=None),
+                   member("plain", "z.md", 2)], ["exhaust"], label=cls + "-direntry")
+        for kind in (["zip", "tar", "tar.gz"] if ctx.tier == "thorough" else [rng.choice(["zip", "tar"])]):
+            add(kind, [member("plain", "ok.txt", 0), member(cls + "-direntry", name, 1, data=None)], ["exhaust"],
+                label=cls + "-direntry")
     # 2. nested archives of every routed spelling
     for name in NESTED:
         for kind in ["zip", "tar.gz", "7z"]:
@@ -340,7 +368,7 @@ def make_cases(ctx, W):
             m["data"] = nested_payload(name, m["token"])
             add(kind, [member("plain", "ok.txt", 0), m], ["exhaust"], label="nested:" + name)
     # 3. tar special members
-    can = os.path.join(W, "canary", "secret.txt")
+    can = os.path.join(PH, "canary", "secret.txt")
     for tt, link in [("sym", can), ("sym", "../../canary/secret.txt"), ("hard", can), ("hard", "ok.txt"), ("chr", None),
                      ("fifo", None)]:
         for nm in ["link.txt", "d/link.md"]:
@@ -385,7 +413,7 @@ def make_cases(ctx, W):
                 zip_method=zm, recipe={"limit": L, "sizes": sizes, "zip_method": zm,
                                        "payload": "token + b' ' + b'x'*n truncated to n bytes, names s<j>_<n>.txt"})
     # 5c. tar link / special members aimed at an oversize member or at a host file: never read, never a result
-    can0 = os.path.join(W, "canary", "secret.txt")
+    can0 = os.path.join(PH, "canary", "secret.txt")
     for kind in ["tar", "tar.gz"]:
         bigm = member("oversize-declared", "big.txt", 0)
         bigm["data"] = (bigm["token"].encode() + b" " + b"x" * 5000)[:5000]
@@ -429,6 +457,11 @@ def make_cases(ctx, W):
             if kind == "7z" and rng.random() < 0.25:
                 kw["lie"] = True
                 cls += "-nostream"
+            elif rng.random() < 0.15:
+                kw["data"] = None                      # directory entry / 7z zero-byte file entry
+                if kind == "7z" and rng.random() < 0.6:
+                    kw["emptyfile"] = True
+                cls += "-emptyfile" if kw.get("emptyfile") else "-direntry"
             ms.append(member(cls, name, j, **kw))
         if rng.random() < 0.3:
             nm = rng.choice(NESTED)
@@ -658,7 +691,7 @@ def run(ctx):
     W = tempfile.mkdtemp(prefix="c09-", dir="/var/tmp")
     token = f"C09CANARY{ctx.seed}Z{ctx.rng.randrange(10**9)}"
     try:
-        os.makedirs(os.path.join(W, "canary"))
+        os.makedirs(os.path.join(W, "canary"))        # template; each worker gets its own copy
         for fn in ["secret.txt", "secret.docx", "secret.md"]:
             Path(W, "canary", fn).write_text(f"{token} host file {fn}\n")
         cases, meta = make_cases(ctx, W)
@@ -670,7 +703,7 @@ def run(ctx):
             for k, ch in enumerate(chunks):
                 Wk = os.path.join(W, f"w{k}")
                 os.makedirs(Wk)
-                os.symlink(os.path.join(W, "canary"), os.path.join(Wk, "canary"))
+                shutil.copytree(os.path.join(W, "canary"), os.path.join(Wk, "canary"))
                 futs.append(ex.submit(run_worker, Wk, token, ch, ctx.n(600, 2400)))
             for f in futs:
                 outs.append(f.result())
